@@ -25,9 +25,9 @@ CLAIMS = {
     "C05": dict(technique=KB + " on parser skeletons (length/type fields enumerated over boundary values, contents symbolic)", design="3/C05",
                 text="Solver-decided panic-freedom (Kani's overflow, bounds, unwrap, assert checks + unwinding assertions) of: the pktparser cursor (any 3 operations, buffers <= 8 octets), dhcppkt::parse at every field-boundary truncation and on fully symbolic 241-octet headers, EDNS COOKIE/EDE accessors for option lengths 0..40, LLDP TLV / management-address / packet decoders and (where present) ICMPv6 option decoders on skeleton families.",
                 note="NOT decided: arbitrary byte strings beyond the skeleton families and sizes stated per obligation; DHCP option decoding through parse_options and the DNS message parser on symbolic input (HashMap inserts / symbolic-length copies are out of CBMC's reach); stack depth of recursive name compression; 'the service still answers the next request' (process liveness; socket loops such as lldp/mod.rs:24 buffer[14..]). Kani models the dev profile (overflow checks on)."),
-    "C06": dict(technique=KB + " of the lifetime / TTL-ageing kernels", design="3/C06",
-                text="Solver-decided: DNSPkt::get_expiry equals the minimum TTL over answer+authority+additional (zero for an empty reply) for all 32-bit TTLs on bounded section shapes; clone_with_ttl_decrement yields TTL - elapsed exactly (never grows, never wraps) and changes nothing else, under the cache's precondition elapsed <= lifetime.",
-                note="NOT decided: the cache map itself (get_entry / insert / expire go through HashMap and prometheus counters: out of CBMC's reach) - in particular that the decrement handed over is floor(now - birth) <= lifetime and that keys compare all four fields; the class-IN gate and lock interleavings of the async handler. Stub: derived <RData as Clone>::clone restricted to the variant the harness builds."),
+    "C06": dict(engine="kani+mirsym", technique=KB + " (TTL kernels); symbolic execution of rustc MIR of the real cache functions into SMT (z3) with a bounded symbolic cache map; native replay", design="3/C06",
+                text="Solver-decided: (mirsym, from MIR) CacheHandler::get_entry + calculate_expiry + CacheValue::expiry + clone_with_ttl_decrement_out_reply + DNSPkt::clone_with_ttl_decrement/get_expiry on replies of bounded section shape with all TTLs, both cache keys and both instants symbolic: lifetime = min TTL; a hit only for a key equal in name, type, DO and CD and only while elapsed <= min TTL; every served TTL = original - whole seconds elapsed (rustc's overflow assertions kept as panic obligations); an unexpired identical entry is served. (Kani) get_expiry and clone_with_ttl_decrement kernels on the compiled code.",
+                note="Assumes: monotonic clock; HashMap::get = lookup by the crate's own derived CacheKey::eq over a bounded entry list (Hash/Eq consistency of the derive not re-checked); names abstracted to identities; tokio Instant/Duration arithmetic summarised. NOT decided: insertion/expiry sweep (HashMap::retain), the class-IN gate, key construction and lock interleavings in the async handle_query. Kani stub: derived <RData as Clone>::clone restricted to the variant the harness builds."),
     "C07": dict(technique="bounded model checking (Kani/CBMC) of the reply-source-address conversion only", design="3/C07",
                 text="Solver-decided for all 2^32 / 2^128 addresses: the address the kernel reported as the query's destination is, byte for byte, the address placed in the reply's IP_PKTINFO/IPV6_PKTINFO control message (std_to_libc_in_addr / in6_addr, RecvMsg::local_ip, ControlMessage::convert_to_cmsg). This is ONE mechanism of C07 (src(resp)=dst(q) on IPv4-only and IPv6 listeners).",
                 note="NOT decided here: exactly-one-reply, matching of answers to questions under reordering/duplication/loss, retransmission and SERVFAIL-on-silence. Those are tokio concurrency over sockets; Kani does not model concurrency and coroutine MIR is outside the MIR->SMT encoder. Trusted: Kani's model of libc structs, little-endian x86_64 target."),
